@@ -11,7 +11,7 @@ cp "$SEED/patch.diff" "$OUT/patch.diff"; cp "$SEED/demo.rs" "$OUT/demo.rs"
 [ -f "$SEED/notes.md" ] && cp "$SEED/notes.md" "$OUT/notes.md"
 [ -n "$SETUP" ] && cp "$SEED/$SETUP" "$OUT/$SETUP"
 CONF="$("$ROOT/tools/confirm_seed.sh" "$SEED" "$CRATE" "$DEST" $SETUP 2>&1 | grep -E "^(DEMO|SUITE|PATCH)")"
-CHECKS="$(MUT_TARGET=/tmp/mut-target2 "$ROOT/tools/mutant.sh" "$SEED/patch.diff" "$@" 2>&1 | grep -E "caught|MISSED|DOES-NOT|PATCH-DOES")"
+CHECKS="$(MUT_TARGET="${MUT_TARGET:-/tmp/mut-target2}" "$ROOT/tools/mutant.sh" "$SEED/patch.diff" "$@" 2>&1 | grep -E "caught|MISSED|DOES-NOT|PATCH-DOES")"
 python3 - "$NAME" "$OUT" "$CRATE" "$DEST" "$CONF" "$CHECKS" "$@" <<'PY'
 import sys, json, re
 name, out, crate, dest, conf, checks = sys.argv[1:7]
